@@ -60,6 +60,7 @@ class Agg:
 
     def __init__(self):
         self.runs = 0
+        self.evals = 0
         self.nontrivial = 0
         self.ihashes = set()
         self.nt_ihashes = set()
@@ -71,10 +72,20 @@ class Agg:
     def add(self, i, seed, plan, res):
         self.runs += 1
         ih = res.get("ihash")
-        if ih is not None:
-            self.ihashes.add(ih)
-            if res.get("nontrivial"):
-                self.nt_ihashes.add(ih)
+        cases = res.get("cases")
+        if cases is not None:
+            # a run that evaluates many cases (crash images, mutations)
+            self.evals += len(cases)
+            for h, nt in cases:
+                self.ihashes.add(h)
+                if nt:
+                    self.nt_ihashes.add(h)
+        else:
+            self.evals += 1
+            if ih is not None:
+                self.ihashes.add(ih)
+                if res.get("nontrivial"):
+                    self.nt_ihashes.add(ih)
         if res.get("nontrivial"):
             self.nontrivial += 1
         for k, v in (res.get("stats") or {}).items():
@@ -91,7 +102,8 @@ class Agg:
                     e[1], e[2], e[3] = seed, i, v.get("detail")
 
     def dump(self):
-        return {"runs": self.runs, "nontrivial": self.nontrivial,
+        return {"runs": self.runs, "evals": self.evals,
+                "nontrivial": self.nontrivial,
                 "ihashes": sorted(self.ihashes),
                 "nt_ihashes": sorted(self.nt_ihashes), "stats": self.stats,
                 "samples": self.samples, "viol": self.viol,
@@ -99,6 +111,7 @@ class Agg:
 
     def merge(self, d):
         self.runs += d["runs"]
+        self.evals += d.get("evals", d["runs"])
         self.nontrivial += d["nontrivial"]
         self.ihashes.update(d["ihashes"])
         self.nt_ihashes.update(d["nt_ihashes"])
@@ -325,7 +338,8 @@ def write_evidence(mod, tier, base, agg, wall, nviol, extra=None):
     rph = int(agg.runs / wall * 3600) if wall > 0 else 0
     stats = dict(sorted(agg.stats.items()))
     cov = {
-        "evaluations": agg.runs,
+        "evaluations": agg.evals,
+        "plans_run": agg.runs,
         "distinct_nontrivial": len(agg.nt_ihashes),
         "rule": mod.RULE,
         "samples": agg.samples[:3] or ["(no sample recorded)"],
